@@ -357,6 +357,8 @@ enum Mutation {
     Truncate2(u16, u16),
     /// put a UTF-8 lead byte (without its continuation bytes) right before the n-th double quote
     LeadBeforeQuote(u16, u8),
+    /// arbitrary bytes inserted in front of the n-th double quote
+    BeforeQuote(u16, Vec<u8>),
     /// swap two bytes
     Swap(u16, u16),
 }
@@ -386,6 +388,14 @@ fn mutation() -> BoxedStrategy<Mutation> {
         1 => (any::<u16>(), any::<u16>()).prop_map(|(a, b)| Mutation::Truncate2(a, b)),
         3 => (any::<u16>(), prop::sample::select(vec![0xC3u8, 0xE2, 0xF0, 0xDF, 0xEF, 0xF4, 0xFF])).prop_map(|(a, b)| Mutation::LeadBeforeQuote(a, b)),
         1 => (any::<u16>(), any::<u16>()).prop_map(|(a, b)| Mutation::Swap(a, b)),
+        // a backslash followed by a multi-byte, over-long or stray sequence, in front of a quote or anywhere
+        2 => (any::<u16>(), any::<bool>(), prop::sample::select(vec![
+                vec![0xC0u8, 0xAF], vec![0xC0, 0xA2], vec![0xC1, 0x9C], vec![0xE0, 0x80, 0xAF], vec![0x80, 0x2F], vec![0xC3, 0xA9],
+                vec![0xF0, 0x9F, 0x98, 0x80], vec![0xE2, 0x80, 0xA8], vec![0xED, 0xA0, 0x80], vec![0xF4, 0x90, 0x80, 0x80], vec![0xC3], vec![0xFF],
+            ])).prop_map(|(a, before_quote, mut bytes)| {
+                bytes.insert(0, b'\\');
+                if before_quote { Mutation::BeforeQuote(a, bytes) } else { Mutation::Insert(a, bytes) }
+            }),
     ]
     .boxed()
 }
@@ -438,6 +448,15 @@ fn apply(base: &[u8], other: &[u8], m: &Mutation) -> Vec<u8> {
             if !quotes.is_empty() {
                 let q = quotes[idx(*a, quotes.len())];
                 v.insert(q, *b);
+            }
+        }
+        Mutation::BeforeQuote(a, bytes) => {
+            let quotes: Vec<usize> = v.iter().enumerate().filter(|(_, c)| **c == b'"').map(|(i, _)| i).collect();
+            if !quotes.is_empty() {
+                let q = quotes[idx(*a, quotes.len())];
+                let tail = v.split_off(q);
+                v.extend_from_slice(bytes);
+                v.extend(tail);
             }
         }
         Mutation::Swap(a, b) => {
